@@ -277,6 +277,9 @@ func (w *World) analyseGlobals() {
 		if !inModule(fn) {
 			continue
 		}
+		if fn.Pkg != nil && fn.Pkg.Pkg.Name() == "main" {
+			continue // command-line programs of the module configure the library like any user; they are not library code
+		}
 		isInit := fn.Synthetic != "" && fn.Name() == "init"
 		for _, b := range fn.Blocks {
 			for _, ins := range b.Instrs {
